@@ -103,7 +103,7 @@ RepForms == {1, 6, 11, 13, 14, 15, 16}       \* quick: the four full forms and o
 LowThr(r) == IF Thorough /\ (r.i1 + r.j) % 3 = 0 THEN {0, 1, 2}
              ELSE IF r.nl = 2 THEN {0, 1} ELSE IF r.m1 = 1 THEN {0, 1} ELSE {0, 2}
 RepSel(r) == /\ r.nl = 1 /\ IsGaussPrior(r) /\ r.m1 # r.n /\ r.m1 > 1 /\ r.av = 1
-             /\ ((Thorough /\ (r.i1 + r.j) % 4 = 0) \/ (r.m1 = 3 /\ r.j = 13 /\ r.i1 \in RepForms) \/ (r.m1 = 2 /\ r.i1 = 16 /\ r.j \in RepForms))
+             /\ ((Thorough /\ (r.i1 + r.j) % 8 = 0) \/ (r.m1 = 3 /\ r.j = 13 /\ r.i1 \in RepForms) \/ (r.m1 = 2 /\ r.i1 = 16 /\ r.j \in RepForms))
 RepsOf(r) == IF ~RepSel(r) THEN {}
              ELSE IF Thorough THEN Reps
              ELSE IF r.i1 \in {13, 16} /\ r.j \in {13, 16} THEN Reps ELSE {26}
@@ -113,7 +113,7 @@ RepsOf(r) == IF ~RepSel(r) THEN {}
 Layouts == <<"f64c", "int", "f32", "fortran", "strided", "readonly">>
 LayAt(q) == Layouts[(q % 6) + 1]
 LaysOf(r, v) == {LayAt(r.i1 + r.j + r.m1 + v + (IF Thorough THEN r.av ELSE 0))}
-LayOnly(r) == IF Thorough THEN {Layouts[((r.i1 + r.j + r.m1 + r.av) % 5) + 2], Layouts[((r.i1 + r.j + r.m1 + r.av + 2) % 5) + 2]}
+LayOnly(r) == IF Thorough THEN {Layouts[((r.i1 + r.j + r.m1 + r.av) % 5) + 2]}
               ELSE IF (r.i1 + r.j) % 2 = 0 THEN {Layouts[((r.i1 + (r.j \div 2) + r.m1) % 5) + 2]} ELSE {}
 ThrChoices(r) == {tt \in {[thr |-> v, rep |-> 1, lay |-> l] : v \in LowThr(r), l \in {Layouts[q] : q \in 1..6}} : tt.lay \in LaysOf(r, tt.thr) /\ SomeAbove(r, tt)}
                  \cup {tt \in {[thr |-> DefaultThr, rep |-> rp, lay |-> LayAt(r.i1 + r.j)] : rp \in RepsOf(r)} : SomeAbove(r, tt)}
